@@ -128,6 +128,7 @@ fn guard<T>(f: impl FnOnce() -> T) -> Result<T, (String, String)> {
                 }
             };
             let site = site.strip_prefix("src/").map(|s| s.to_string()).unwrap_or(site);
+            let site = report::stable_site(&site);
             Err((site, msg))
         }
     }
